@@ -102,7 +102,7 @@ ArgType(c) == CASE c.arg = "struct" -> TRef("Upload") [] c.arg = "union" -> TRef
 RouteSchema == <<"host", "scope", "auth", "style">>
 Route(ns, n, ver, arg, res, dep, by, style) ==
     [ns |-> ns, n |-> n, ver |-> ver, arg |-> arg, res |-> res, err |-> TVoid, dep |-> dep, by |-> by, style |-> style,
-     auth |-> "user", scope |-> IF ver = 3 THEN "files.read" ELSE ""]
+     auth |-> "user", scope |-> IF ver = 3 THEN "files\nread" ELSE ""]     \* a text of two lines
 AStr(x) == [k |-> "str", s |-> x]
 ANull   == [k |-> "null"]
 \* attribute values of a route in schema order: host is never written (default "api"), scope is nullable
